@@ -24,7 +24,7 @@ var Leaves = []reflect.Type{
 // Statics are the hand-written struct types (embedding, tags, recursion).
 var Statics = []reflect.Type{
 	T[EmbedVal](), T[EmbedPtr](), T[EmbedUnexpVal](), T[EmbedUnexpPtr](), T[EmbedConflict](), T[EmbedAmbiguous](), T[EmbedTaggedWins](), T[EmbedDeep](),
-	T[EmbedMarshaler](), T[EmbedTextMarshalerPtr](), T[EmbedNonStruct](), T[EmbedPtrNonStruct](), T[EmbedIface](), T[EmbedTwoPtr](), T[EmbedTagDepths](), T[DupTagDirect](), T[DupTagEmbedded](), T[NonASCIIKeys](), T[AddrMapThenSlice](), T[AddrSliceThenMap](), T[EmbedUnexpNonStructTagged](), T[MutRoot](), T[MutA](), T[EmbedPtrOmit](), T[Tags](), T[CaseFields](), T[Recursive](), T[Deep](),
+	T[EmbedMarshaler](), T[EmbedTextMarshalerPtr](), T[EmbedNonStruct](), T[EmbedPtrNonStruct](), T[EmbedIface](), T[EmbedTwoPtr](), T[EmbedTagDepths](), T[DupTagDirect](), T[DupTagEmbedded](), T[NonASCIIKeys](), T[AddrMapThenSlice](), T[AddrSliceThenMap](), T[EmbedUnexpNonStructTagged](), T[MutRoot](), T[MutA](), T[RecEmbA](), T[RecEmbE](), T[EmbedPtrOmit](), T[Tags](), T[CaseFields](), T[Recursive](), T[Deep](),
 }
 
 var mapKeys = []reflect.Type{T[string](), T[NamedString](), T[int](), T[int8](), T[uint64](), T[KeyT](), T[KeyPT](), T[bool](), T[float64](), T[VTInt](), T[VTString](), T[KeyMTOnly](), T[time.Duration](), T[VMInt](), T[PMInt](), reflect.PointerTo(T[KeyPT]()), reflect.PointerTo(T[KeyT]()), T[KeyNaN]()}
@@ -129,6 +129,12 @@ func Domain(t reflect.Type, depth int) []reflect.Value {
 			}
 			add(EmbedPtrOmit{X: m, InnerOmit: in}, EmbedPtrOmit{Y: "y", InnerOmit: in, Z: &one})
 		}
+		return out
+	case T[RecEmbA]():
+		add(RecEmbA{&RecEmbB{X: 1, P: &RecEmbA{&RecEmbB{X: 2}}}}, RecEmbA{}, RecEmbA{&RecEmbB{X: 3}}, RecEmbA{&RecEmbB{P: &RecEmbA{}}})
+		return out
+	case T[RecEmbE]():
+		add(RecEmbE{&RecEmbF{Z: 1, M: map[string]RecEmbE{"a": {&RecEmbF{Z: 2}}}}}, RecEmbE{}, RecEmbE{&RecEmbF{Z: 3, M: map[string]RecEmbE{}}})
 		return out
 	case T[KeyNaN]():
 		// exactly one value holding a NaN: two such keys in one map would be written in an order neither encoder defines
